@@ -3,6 +3,7 @@ package main
 
 import (
 	"fmt"
+	"os"
 	"sync"
 
 	"verif/bfs"
@@ -11,6 +12,10 @@ import (
 
 func main() {
 	run := core.Start("C13", "model_checking")
+	if os.Getenv("VERIF_RACE_CHILD") != "" {
+		raceChild(run.Tier)
+		return
+	}
 	depth := 4
 	if run.Tier == core.Thorough {
 		depth = 7
@@ -22,6 +27,9 @@ func main() {
 			Ops     []string `json:"ops"`
 		}
 		core.LoadArtefact(run.Replay, &art)
+		if art.Problem == "" {
+			replayConc(run)
+		}
 		for _, p := range probs {
 			if p.Name == art.Problem {
 				p.Depth = len(art.Ops)
@@ -33,6 +41,10 @@ func main() {
 				}
 			}
 		}
+		run.Finish()
+	}
+	if !run.Fork(16) {
+		runConcurrent(run)
 		run.Finish()
 	}
 	var wg sync.WaitGroup
@@ -52,6 +64,32 @@ func main() {
 	}
 	wg.Wait()
 	run.Set("seq_depth_bound", int64(depth))
+	run.RacePass("--tier", string(run.Tier))
 	run.Set("traces_validated_against_impl", run.Get("transitions"))
 	run.Finish()
+}
+
+func replayConc(run *core.Run) {
+	var art struct {
+		Scenario string `json:"scenario"`
+		Choices  []int  `json:"choices"`
+	}
+	core.LoadArtefact(run.Replay, &art)
+	for _, c := range wspecs(core.Thorough) {
+		if c.name() == art.Scenario {
+			res, obs, v := c.scenario().Execute(art.Choices, true)
+			for _, l := range res.Trace {
+				fmt.Println("  ", l)
+			}
+			fmt.Println("observation:", obs)
+			if v != nil {
+				v.Artefact = art
+				run.Report(*v)
+			} else {
+				fmt.Println("replay: no violation")
+			}
+			run.Finish()
+		}
+	}
+	core.Fatalf("scenario %q not found", art.Scenario)
 }
